@@ -171,7 +171,7 @@ pub fn check(ctx: &Ctx) -> i32 {
     let mut ev = Evidence::default();
     ev.rule = "non-linear AxCut programs produced by the pipeline from generated Fun programs; oracles: (1) named AxCut machine on the input vs positional/linear machine on Prog::linearize() (output, result, termination); (2) a static checker over every path of the linearized program implementing what the code generators read off positions (call: callee's parameters; invoke: arguments then closure; let: rest then arguments; switch: rest then scrutinee, clauses in declaration order; create: rest then captured environment; operands present; kinds and types agree; only substitute duplicates/drops). Non-trivial: the run executed a substitute that duplicates or drops an object variable; distinct by hash of (source, arguments). Second domain: non-linear AxCut programs generated directly (gen_axcut). Third domain: AxCut programs shrunk from directly generated Core programs (gen_core), e.g. closures in constructor fields and destructors with several continuations.".into();
     ev.assumptions = vec!["AxCut machines as in DESIGN.md 3.3".into()];
-    let n = ctx.tier.pick(6000, 300000);
+    let n = ctx.tier.pick(16000, 300000);
     let run = |b: &[u8]| {
         let c = decode(ctx, b);
         run_case(ctx, &c.prog, &c.tuples)
@@ -185,7 +185,7 @@ pub fn check(ctx: &Ctx) -> i32 {
         report.violations.push(write_replay_with(ctx, "linearize", &bytes, &f2, fun_case_json(&c2)));
     }
     if report.violations.is_empty() {
-        let n2 = ctx.tier.pick(4000, 300000);
+        let n2 = ctx.tier.pick(10000, 300000);
         let out2 = drive(&mut ev, ctx.seed, 105, n2, 60, 2500, 400, &|b| run_direct(ctx, b));
         if let Some((bytes, f)) = out2.failure {
             eprintln!("{}", f.summary);
